@@ -1,6 +1,7 @@
 import AdeuModel.Lemmas.Extract
 import AdeuModel.Lemmas.Mapper
 import AdeuModel.Lemmas.ExtractDoc
+import AdeuModel.Lemmas.MetaIds
 /-
 C04 — the text projection is complete, ordered and correctly annotated.
 Statements about `Adeu.Doc.extractText`, the model of `extract_text_from_stream`.
@@ -58,6 +59,16 @@ theorem C04_listed_marks_are_those_open_at_text (cm : CMap) (p : Para) :
     (metaGroups cm p).flatten = snapSpec [] [] [] (items p) :=
   metaGroups_flatten cm p
 
+/-- Inside one metadata block: its change lines are `chgLines` of its snapshots (whatever comments they carry),
+one line per listed id, no id twice, and an id is listed iff that insertion / deletion is open in one of the
+block's snapshots.  With the two theorems above: a tracked change is listed in the raw view of a paragraph
+iff it encloses a run that carries text. -/
+theorem C04_block_lists_open_changes_once (cm : CMap) (states : List Snap) :
+    metaBlock cm states = joinWith ['\n'] (chgLines states ++ (states.foldl (metaStep cm) ([], [], [])).2.1) ∧
+    (chgIds states).Nodup ∧ (chgLines states).length = (chgIds states).length ∧
+    ∀ id, id ∈ chgIds states ↔ ∃ s ∈ states, id ∈ (s.ins ++ s.del).map (·.1) :=
+  ⟨metaBlock_chgLines cm states, chgIds_spec states⟩
+
 /-- Resolving every annotation of the raw view as 'accept' gives the accepted view, character for character. -/
 theorem C04_accept_raw_eq_clean (cm : CMap) (p : Para) : acceptView (rawSegs cm p) = paraText true cm p :=
   rawSegs_accept cm p
@@ -97,6 +108,8 @@ example : rawSegs [] samplePara =
     [.plain "keep ".toList, .del "old ".toList, .ins "new ".toList, .note "[Chg:1] A\n[Chg:2] A".toList,
      .plain "**a**\n**b**".toList] := by decide
 example : braceFreeB (rawSegs [] samplePara) = true := by decide
+example : chgIds [⟨[], [("1".toList, some "A".toList)], []⟩, ⟨[("2".toList, some "A".toList)], [("1".toList, some "A".toList)], []⟩] =
+    ["1".toList, "2".toList] := by decide
 example : metaGroups [] samplePara =
     [[⟨[], [], []⟩], [⟨[], [("1".toList, some "A".toList)], []⟩, ⟨[("2".toList, some "A".toList)], [], []⟩],
      [⟨[], [], []⟩]] := by decide
